@@ -64,7 +64,9 @@ WidthMinus(r, prefix, minw, cf) ==
   IF nw < minw /\ ~cf.overflow THEN -1 ELSE Max2(nw, minw)
 BorderItems(ln) == WithTag([i \in 1..Len(ln.c) |-> C2(ln.c[i])], ln.t)
 \* append_subrender: lines zipped with prefixes; border lines become text
-AppendSub(parent, sub, first, rest) ==
+\* (the prefix has to fit too: a block without any width still gets its prefix, and without
+\*  allow_width_overflow a line wider than the parent is TooNarrow)
+AppendSub(parent, sub, first, rest, ovf) ==
   LET p1 == Flush(parent)
       s1 == Flush(sub)
       tag == p1.ann
@@ -73,7 +75,8 @@ AppendSub(parent, sub, first, rest) ==
                    ln == s1.lines[i] IN
                IF ln.b THEN TL(pre \o WithTag([k \in 1..Len(ln.c) |-> C2(ln.c[k])], tag))
                ELSE TL(pre \o ln.c)]
-      merged == AddLines([p1 EXCEPT !.err = @ \/ s1.err], pl)
+      wide == ~ovf /\ \E i \in 1..Len(pl) : SumW(pl[i].c) > p1.width
+      merged == AddLines([p1 EXCEPT !.err = @ \/ s1.err \/ wide], pl)
   IN [merged EXCEPT !.pend = @ \o s1.pend]      \* markers after the sub-renderer's last line stay pending
 SubEmpty(r) == r.lines = <<>> /\ (IsNull(r.wb) \/ WBEmpty(r.wb))     \* SubRenderer::empty
 
@@ -141,7 +144,7 @@ AppendVertRow(parent, subs, cf) ==
   LET p1 == Flush(parent)
       n == Len(subs)
       step(acc, k) == LET a1 == IF k > 1 /\ cf.borders THEN AddLine(Flush(acc), BL(Rep(GV, acc.width), acc.ann)) ELSE acc
-                      IN AppendSub(a1, subs[k], <<>>, <<>>)
+                      IN AppendSub(a1, subs[k], <<>>, <<>>, cf.overflow)
       p2 == FoldLeft(step, p1, [k \in 1..n |-> k])
   IN IF cf.borders THEN AddLine(Flush(p2), BL(Rep(GS, p2.width), p2.ann)) ELSE p2
 
@@ -310,7 +313,7 @@ RStep(st, cf) ==
          LET sub == top
              s2 == [st EXCEPT !.stk = Front(@)]
              par == IF it.block THEN StartBlock(Top(s2)) ELSE Top(s2)
-             p2 == AppendSub(par, sub, it.first, it.rest)
+             p2 == AppendSub(par, sub, it.first, it.rest, cf.overflow)
          IN [SetTop(s2, IF it.block THEN [p2 EXCEPT !.abe = TRUE] ELSE p2) EXCEPT !.todo = rest]
     [] it.e = "row" ->
          \* do_render_node(TableRow): style applied, cells queued with their prefn, cons closure last
